@@ -101,6 +101,57 @@ fn evaluate(text: &str, assign: &[(String, Option<usize>)], variant: usize) -> V
     out
 }
 
+/// The same field reached in other ways than parsing its text: normalised by wrap-and-sort (field, entry and
+/// relation level), converted between the lossy and the lossless representation, assembled with the constructors,
+/// or given its constraint through `set_version`. Conjunction and disjunction are commutative, so the expected
+/// answer is the one of the text.
+fn evaluate_provenances(model: &[Vec<(usize, Option<&str>, usize)>], text: &str, assign: &[(String, Option<usize>)], variant: usize) -> Vec<(&'static str, bool)> {
+    use debian_control::relations::VersionConstraint;
+    let map: HashMap<String, Version> = assign.iter().filter_map(|(p, v)| v.map(|i| (p.clone(), Version::from_str(spelled(i, variant)).unwrap()))).collect();
+    let closure = |name: &str| -> Option<Version> { map.get(name).cloned() };
+    let mut out = vec![];
+    let l = ll::Relations::from_str(text).unwrap();
+    out.push(("lossless::Relations::wrap_and_sort().satisfied_by(closure)", ll::Relations::from_str(text).unwrap().wrap_and_sort().satisfied_by(closure)));
+    out.push(("lossless::all(Entry::wrap_and_sort().satisfied_by(closure))", l.entries().all(|e| e.wrap_and_sort().satisfied_by(closure))));
+    out.push((
+        "lossless::all(any(Relation::wrap_and_sort()-as-entry.satisfied_by(closure)))",
+        l.entries().all(|e| e.relations().any(|r| ll::Entry::from(r.wrap_and_sort()).satisfied_by(closure))),
+    ));
+    let y = lossy::Relations::from_str(text).unwrap();
+    let from_lossy: ll::Relations = y.0.iter().map(|e| ll::Entry::from(e.iter().cloned().map(ll::Relation::from).collect::<Vec<_>>())).collect::<Vec<_>>().into();
+    out.push(("lossless-from-lossy::Relations::satisfied_by(closure)", from_lossy.satisfied_by(closure)));
+    let to_lossy: Vec<Vec<lossy::Relation>> = l.entries().map(|e| e.into()).collect();
+    out.push(("lossy-from-lossless::all(any(Relation::satisfied_by(closure)))", to_lossy.iter().all(|e| e.iter().any(|r| r.satisfied_by(closure)))));
+    let to_lossy_ws: Vec<Vec<lossy::Relation>> = ll::Relations::from_str(text).unwrap().wrap_and_sort().entries().map(|e| e.into()).collect();
+    out.push(("lossy-from-lossless-wrap_and_sort::all(any(Relation::satisfied_by(closure)))", to_lossy_ws.iter().all(|e| e.iter().any(|r| r.satisfied_by(closure)))));
+    let vc = |o: &str| VersionConstraint::from_str(o).unwrap();
+    let built: ll::Relations = model
+        .iter()
+        .map(|e| ll::Entry::from(e.iter().map(|(p, o, q)| ll::Relation::new(PKGS[*p], o.map(|o| (vc(o), Version::from_str(LADDER[*q]).unwrap())))).collect::<Vec<_>>()))
+        .collect::<Vec<_>>()
+        .into();
+    out.push(("lossless-built(Relation::new)::Relations::satisfied_by(closure)", built.satisfied_by(closure)));
+    let set: ll::Relations = model
+        .iter()
+        .map(|e| {
+            ll::Entry::from(
+                e.iter()
+                    .map(|(p, o, q)| {
+                        let mut r = ll::Relation::simple(PKGS[*p]);
+                        if let Some(o) = o {
+                            r.set_version(Some((vc(o), Version::from_str(LADDER[*q]).unwrap())));
+                        }
+                        r
+                    })
+                    .collect::<Vec<_>>(),
+            )
+        })
+        .collect::<Vec<_>>()
+        .into();
+    out.push(("lossless-built(Relation::set_version)::Relations::satisfied_by(closure)", set.satisfied_by(closure)));
+    out
+}
+
 fn single_lane(ctx: &mut Ctx, idx: u64) {
     let variant = (idx / 540) as usize;
     let idx = idx % 540;
@@ -113,7 +164,12 @@ fn single_lane(ctx: &mut Ctx, idx: u64) {
     let text = rel_text("p0", op, req);
     let assign = vec![("p0".to_string(), inst), ("other".to_string(), Some(3))];
     let want = holds(op, inst, req);
-    let res = guard(256, || evaluate(&text, &assign, variant));
+    let model1 = vec![vec![(0usize, op, req)]];
+    let res = guard(1024, || {
+        let mut v = evaluate(&text, &assign, variant);
+        v.extend(evaluate_provenances(&model1, &text, &assign, variant));
+        v
+    });
     match res {
         Err(f) => ctx.violation(&format!("{}|satisfied_by|single", f.class()), json!({"field": text, "installed": inst.map(|i| LADDER[i]), "failure": f.json()})),
         Ok(v) => {
@@ -152,7 +208,13 @@ fn fields_lane(ctx: &mut Ctx, _idx: u64) {
         let assign: Vec<(String, Option<usize>)> = (0..3).map(|k| (PKGS[k].to_string(), inst[k])).collect();
         let want = model.iter().all(|e| e.iter().any(|(p, o, q)| holds(*o, inst[*p], *q)));
         let variant = a % 5;
-        let res = guard(1024, || evaluate(&text, &assign, variant));
+        let res = guard(4096, || {
+            let mut v = evaluate(&text, &assign, variant);
+            if a % 3 == 0 {
+                v.extend(evaluate_provenances(&model, &text, &assign, variant));
+            }
+            v
+        });
         match res {
             Err(f) => {
                 ctx.violation(&format!("{}|satisfied_by|field", f.class()), json!({"field": text, "failure": f.json()}));
